@@ -45,6 +45,9 @@ var mutations = map[int][]edit{
 	// comes with its relevant transaction, whose addRelevantTx marks it used again)
 	8: {{"/repo/wallet/wallet.go", "err := scopedMgr.MarkUsed(ns, addr)", "var err error\n\t\t\t_ = addr", 2},
 		{"/repo/wallet/chainntfns.go", "err = w.Manager.MarkUsed(addrmgrNs, addr)", "err = nil", 1}},
+	// 9: Resurrect does not put the credits found before an interruption back
+	// into the watched set (a resumed recovery misses their spends)
+	9: {{"/repo/wallet/recovery.go", "rm.state.AddWatchedOutPoint(&credit.OutPoint, addrs[0])", "_ = addrs", 1}},
 	// 90: NOT a mutation but a diagnostic: candidate repair for the finding
 	// "retry:address-missed" (extendAddresses updates next index / cache in memory
 	// inside the transaction; here the update is deferred to OnCommit as
